@@ -96,6 +96,11 @@ def solve_one(job):
     """job = (name, smt2, timeout_ms).  returns dict"""
     name, smt2, timeout_ms = job[:3]
     prefer = job[3] if len(job) > 3 else None
+    keep = os.environ.get("PYVC_KEEP_SMT")
+    if keep:  # debugging aid: keep every query under a readable name
+        os.makedirs(keep, exist_ok=True)
+        with open(os.path.join(keep, re.sub(r"[^A-Za-z0-9_.#=-]+", "_", name)[-150:] + ".smt2"), "w") as fh:
+            fh.write(smt2)
     if "/canary#" in name:
         # vacuity canary: only 'unsat' matters (contract vacuous); one short attempt, no portfolio
         verdict, info, model = _z3_solve(smt2, 2000, False)
